@@ -576,8 +576,10 @@ func deadBackPreds(h *ssa.BasicBlock, body map[*ssa.BasicBlock]bool) map[int]boo
 	}
 	phi, ok := cond.(*ssa.Phi)
 	if !ok || phi.Block() != h {
+		deadByNilTests(h, body, dead)
 		return dead
 	}
+	defer deadByNilTests(h, body, dead)
 	for i, e := range phi.Edges {
 		if !body[h.Preds[i]] {
 			continue
@@ -645,4 +647,73 @@ func diffOfFact(z *Polyizer, f Fact) Poly {
 		}
 	}
 	return nil
+}
+
+// deadByNilTests: the loop condition also requires a merged pointer of the
+// header to be nil (for ...; i < n && err == nil; ...), and on a back edge the
+// operand is known not to be nil because that edge is the non-nil side of a test
+// of it (if err = f(); err == nil { i++ }): the loop is left at once on it.
+func deadByNilTests(h *ssa.BasicBlock, body map[*ssa.BasicBlock]bool, dead map[int]bool) {
+	// the chain of condition blocks: h, then the staying successor while it has
+	// nothing but the next test
+	blk := h
+	for depth := 0; depth < 4 && blk != nil; depth++ {
+		ifi, ok := blk.Instrs[len(blk.Instrs)-1].(*ssa.If)
+		if !ok || len(blk.Succs) != 2 {
+			return
+		}
+		stayK := -1
+		if body[blk.Succs[0]] && !body[blk.Succs[1]] {
+			stayK = 0
+		} else if body[blk.Succs[1]] && !body[blk.Succs[0]] {
+			stayK = 1
+		}
+		if stayK < 0 {
+			return
+		}
+		if f, ok := condFact(ifi.Cond, stayK == 0); ok && f.Y != nil && isNilConst(f.Y) && (f.Op == token.EQL || f.Op == token.NEQ) {
+			if phi, isPhi := f.X.(*ssa.Phi); isPhi && phi.Block() == h {
+				for i, o := range phi.Edges {
+					p := h.Preds[i]
+					if !body[p] || dead[i] {
+						continue
+					}
+					// what the edge p -> h says about o
+					var known token.Token
+					if isNilConst(o) {
+						known = token.EQL
+					} else if pi, ok := p.Instrs[len(p.Instrs)-1].(*ssa.If); ok && len(p.Succs) == 2 && p.Succs[0] != p.Succs[1] {
+						if pf, ok := condFact(pi.Cond, p.Succs[0] == h); ok && pf.X == o && pf.Y != nil && isNilConst(pf.Y) {
+							known = pf.Op
+						}
+					}
+					if known != 0 && known != f.Op {
+						dead[i] = true
+					}
+				}
+			}
+		}
+		// next condition block
+		next := blk.Succs[stayK]
+		if len(next.Preds) != 1 {
+			return
+		}
+		pure := true
+		for _, in := range next.Instrs[:len(next.Instrs)-1] {
+			switch in.(type) {
+			case *ssa.BinOp, *ssa.UnOp, *ssa.Convert, *ssa.ChangeType, *ssa.DebugRef, *ssa.FieldAddr, *ssa.IndexAddr, *ssa.Phi:
+			default:
+				if c, ok := in.(*ssa.Call); ok {
+					if _, isB := c.Common().Value.(*ssa.Builtin); isB {
+						continue
+					}
+				}
+				pure = false
+			}
+		}
+		if !pure {
+			return
+		}
+		blk = next
+	}
 }
